@@ -63,7 +63,7 @@ type FakeConsul struct {
 
 func NewFakeConsul() *FakeConsul {
 	c := &FakeConsul{kv: map[string]*kvEntry{}, index: 10}
-	ln, err := net.Listen("tcp", "127.0.0.1:0")
+	ln, err := Listen()
 	if err != nil {
 		panic(err)
 	}
@@ -81,7 +81,7 @@ func (c *FakeConsul) Close() { c.srv.Close() }
 // AddListener opens one more listening address for the same store, so that requests of
 // different simulated clients can be told apart (KVOp.Local).
 func (c *FakeConsul) AddListener() string {
-	ln, err := net.Listen("tcp", "127.0.0.1:0")
+	ln, err := Listen()
 	if err != nil {
 		panic(err)
 	}
